@@ -12,3 +12,54 @@ Theorem C05_code_tie : forall c, length c = 16%nat -> wf c ->
   CFuns.gf_poly_eval CFuns.polyseed_mul2_table (map Z.of_N c) = Z.of_N (poly_eval c).
 Proof. exact tie_eval. Qed.
 Print Assumptions C05_code_tie.
+
+(* ---- the tie to the code: src/polyseed.c as TRANSLATED on this run (Gen/CApi.v) ---- *)
+From Coq Require Import String.
+From PS Require Import Base GFDefs PackDefs StoreDefs MiscDefs StrDefs LangDefs ApiDefs SpecDefs SpecApi GFProofs PackProofs StoreProofs RefineProofs CTieBase CTieLang CTiePhrase CTiePhraseEv CTieSplit CTieApi CTieDecode CTieEncode CTieLocals CTieInject CTieCmp CTieSearch CodeTheorems.
+From PS.Gen Require Import Consts PrivConsts Langs.
+From PS.Gen Require CFuns.
+From PS.Gen Require CApi.
+
+(* the C types of the parameters of the translated functions (the coin is `enum polyseed_coin`, an int: every coin below 2048 reaches the xor unchanged), as clang reports them for the current headers *)
+Theorem C05_code_tie_signatures :
+  CApi.ctypes_gf_poly_check = ["bool"%string; "message : const gf_poly *"%string] /\
+         CApi.ctypes_gf_poly_encode = ["void"%string; "message : gf_poly *"%string] /\
+         CApi.ctypes_get_comparer = ["polyseed_cmp *"%string; "lang : const polyseed_lang *"%string] /\
+         CApi.ctypes_polyseed_inject = ["void"%string; "deps : const polyseed_dependency *"%string] /\
+         CApi.ctypes_lang_search =
+         ["int"%string; "lang : const polyseed_lang *"%string; "word : const char *"%string;
+          "cmp : polyseed_cmp *"%string] /\
+         CApi.ctypes_polyseed_lang_find_word =
+         ["int"%string; "lang : const polyseed_lang *"%string; "word : const char *"%string] /\
+         CApi.ctypes_polyseed_free = ["void"%string; "seed : polyseed_data *"%string] /\
+         CApi.ctypes_polyseed_get_birthday = ["uint64_t"%string; "data : const polyseed_data *"%string] /\
+         CApi.ctypes_polyseed_get_feature =
+         ["unsigned int"%string; "seed : const polyseed_data *"%string; "mask : unsigned int"%string] /\
+         CApi.ctypes_polyseed_is_encrypted = ["int"%string; "seed : const polyseed_data *"%string] /\
+         CApi.ctypes_polyseed_store =
+         ["void"%string; "seed : const polyseed_data *"%string; "storage : uint8_t *"%string] /\
+         CApi.ctypes_polyseed_load =
+         ["polyseed_status"%string; "storage : const uint8_t *"%string; "seed_out : polyseed_data **"%string] /\
+         CApi.ctypes_polyseed_create =
+         ["polyseed_status"%string; "features : unsigned int"%string; "seed_out : polyseed_data **"%string] /\
+         CApi.ctypes_polyseed_keygen =
+         ["void"%string; "seed : const polyseed_data *"%string; "coin : enum polyseed_coin"%string;
+          "key_size : unsigned long"%string; "key_out : uint8_t *"%string] /\
+         CApi.ctypes_polyseed_crypt =
+         ["void"%string; "seed : polyseed_data *"%string; "password : const char *"%string] /\
+         CApi.ctypes_polyseed_phrase_decode =
+         ["polyseed_status"%string; "phrase : const char *const *"%string; "idx_out : uint_fast16_t *"%string;
+          "lang_out : const polyseed_lang **"%string] /\
+         CApi.ctypes_str_split = ["int"%string; "str : char *"%string; "words : const char **"%string] /\
+         CApi.ctypes_polyseed_decode =
+         ["polyseed_status"%string; "str : const char *"%string; "coin : enum polyseed_coin"%string;
+          "lang_out : const polyseed_lang **"%string; "seed_out : polyseed_data **"%string] /\
+         CApi.ctypes_polyseed_decode_explicit =
+         ["polyseed_status"%string; "str : const char *"%string; "coin : enum polyseed_coin"%string;
+          "lang : const polyseed_lang *"%string; "seed_out : polyseed_data **"%string] /\
+         CApi.ctypes_write_str = ["void"%string; "pos : char **"%string; "str : const char *"%string] /\
+         CApi.ctypes_polyseed_encode =
+         ["size_t"%string; "data : const polyseed_data *"%string; "lang : const polyseed_lang *"%string;
+          "coin : enum polyseed_coin"%string; "str_out : char *"%string].
+Proof. exact @tie_ctypes. Qed.
+Print Assumptions C05_code_tie_signatures.
